@@ -923,6 +923,18 @@ pixman_image_fill_boxes (pixman_op_t           op,
                     return FALSE;
             }
 
+            /* pixman_fill() addresses memory directly: never let it see
+             * anything outside the image (compositing the boxes, which is
+             * what this shortcut replaces, clips to the image as well)
+             */
+            if (!pixman_region32_intersect_rect (&fill_region, &fill_region,
+                                                 0, 0,
+                                                 dest->bits.width,
+                                                 dest->bits.height))
+            {
+                return FALSE;
+            }
+
             rects = pixman_region32_rectangles (&fill_region, &n_rects);
             for (j = 0; j < n_rects; ++j)
             {
